@@ -114,6 +114,14 @@ func jarCorpus(je *jarEngine) {
 		opCycle("h1.test", "/", jcDel("root", "max-age-0")), opGet("h1.test", "/"))
 	run("names-differ-in-case-mixed", opCycle("h1.test", "/", jc("root")), opSet("SetByHost", "h1.test", jc("ROOT")), opCycle("h1.test", "/"), opGet("h1.test", "/"),
 		opSet("SetKeyValue", "h1.test", jc("np1")), opCycle("h1.test", "/", jc("NP1")), opGet("h1.test", "/"))
+	// a cookie set by the target of a followed redirect belongs to the target
+	run("cookie-set-by-redirect-target", jarOp{Op: "cycle", Host: "h1.test", Path: "/", Target: "h2.test", Cookies: []jarCookie{jc("root")}},
+		opGet("h2.test", "/"), opGet("h1.test", "/"))
+	// Max-Age beyond 32/63 bits of nanoseconds, and negative Max-Age (= delete now)
+	huge := jcMaxAge("root", 5)
+	huge.Huge = true
+	run("max-age-huge", opCycle("h1.test", "/", huge), opGet("h1.test", "/"), opAdv(2), opGet("h1.test", "/"))
+	run("max-age-negative-deletes", opSet("SetByHost", "h1.test", jc("root")), opCycle("h1.test", "/", jcDel("root", "negative-max-age")), opGet("h1.test", "/"))
 	// sanity: these hold on a correct jar and on this one
 	run("sanity-expires", opSet("SetByHost", "h1.test", jcExp("root", 2)), opGet("h1.test", "/"), opAdv(3), opGet("h1.test", "/"))
 	run("sanity-hosts", opSet("SetByHost", "h1.test", jc("root")), opSet("SetKeyValue", "h2.test", jc("np1")),
